@@ -37,12 +37,20 @@ def run(ck, prog):
     ck.attempt(_api, ck, prog, E)
 
 
+STATE_FIELDS = {"seq", "len", "chargePattern", "phosphosites", "aminoAcidColorMap", "ComplexityObject"}
+
+
 def _eff(ck, prog, E):
     for m in MOVES:
         s = E.of(SEQ, "Sequence." + m)
         construct = SEQ_PATH + ":Sequence." + m
         w = {k: sorted(v) for k, v in s.self_writes.items() if k not in ("dmax", "seqDeltaMax")}
-        ck.ob("EFF-receiver", construct, not w, expected="the object a move is called on is never altered", found=w, slot="writes")
+        state = {k: v for k, v in w.items() if k.split(".")[0] in STATE_FIELDS or k == "*"}
+        # a private field of its own that a move writes (a remembered intermediate result) does not alter what the object answers unless it
+        # can go stale - a memo question this rule does not judge
+        ck.shape(not (set(w) - set(state)) or bool(state), "%s writes new field(s) %s of the receiver; whether they can change a later answer is not judged by this rule"
+                 % (m, sorted(set(w) - set(state))))
+        ck.ob("EFF-receiver", construct, not state, expected="the object a move is called on is never altered", found=state or w, slot="writes")
         # dmax/seqDeltaMax may only be touched through deltaMax()'s memo (delta() does not call it; kappa does)
         memo = {k for k in s.self_writes if k in ("dmax", "seqDeltaMax")}
         direct = [x for k in memo for x in s.write_sites.get(k, []) if x[0] != "via"]
@@ -447,7 +455,9 @@ def _api(ck, prog, E):
     ck.ob("BIND-api", construct, unparse(calls[0].func.value) == "self.SeqObj", expected="the shuffle is applied to the stored sequence object", found=unparse(calls[0].func),
           slot="receiver", where=f.loc(calls[0]))
     s = E.sum[f.key]
-    ck.ob("EFF-receiver", construct, not s.self_writes and not s.param_muts, expected="receiver and argument untouched",
+    sw = {k for k in s.self_writes if k.split(".")[-1] in STATE_FIELDS or k == "*" or k == "SeqObj"}
+    ck.shape(not (set(s.self_writes) - sw) or bool(sw) or bool(s.param_muts), "get_shuffled_sequence writes new field(s) %s; not judged by this rule" % sorted(set(s.self_writes) - sw))
+    ck.ob("EFF-receiver", construct, not sw and not s.param_muts, expected="receiver and argument untouched",
           found={"writes": sorted(s.self_writes), "args": sorted(s.param_muts)}, slot="writes")
     g = prog.fn("sequencePermutants.py", "SequencePermutants.get_permutant")
     gc = [n for n in ast.walk(g.node) if isinstance(n, ast.Call) and prog.resolve_call(g, n) is fs]
@@ -455,7 +465,9 @@ def _api(ck, prog, E):
     sg = E.sum[g.key]
     ck.ob("BIND-api", g.mod.relpath + ":" + g.qual, unparse(gc[0].func.value) == "self.SeqObj", expected="a full shuffle of the stored sequence", found=unparse(gc[0]), slot="forwards",
           where=g.loc(gc[0]))
-    ck.ob("EFF-receiver", g.mod.relpath + ":" + g.qual, not sg.self_writes, expected="receiver untouched", found=sorted(sg.self_writes), slot="writes")
+    gw = {k for k in sg.self_writes if k.split(".")[-1] in STATE_FIELDS or k == "*" or k == "SeqObj"}
+    ck.shape(not (set(sg.self_writes) - gw) or bool(gw), "get_permutant writes new field(s) %s; not judged by this rule" % sorted(set(sg.self_writes) - gw))
+    ck.ob("EFF-receiver", g.mod.relpath + ":" + g.qual, not gw, expected="receiver untouched", found=sorted(sg.self_writes), slot="writes")
     # SequenceParameters(SeqObj=...) keeps the object it is given
     h = prog.fn(SP, "SequenceParameters.__init__")
     keeps = [n for n in ast.walk(h.node) if isinstance(n, ast.Assign) and unparse(n.targets[0]) == "self.SeqObj" and isinstance(n.value, ast.Name) and n.value.id == "SeqObj"]
@@ -487,13 +499,26 @@ def _retry_loops(ck, prog):
         for c in ast.walk(lp):
             if isinstance(c, ast.Call) and prog.class_of_ctor(f.mod, c) == "Sequence" and c.args:
                 child_args |= {x.id for x in ast.walk(c.args[0]) if isinstance(x, ast.Name)}
+        # ... directly or through locals assigned inside the loop (newseq = "".join(newseq_list))
+        grew = True
+        while grew:
+            grew = False
+            for a in ast.walk(lp):
+                if isinstance(a, ast.Assign) and any(isinstance(t, ast.Name) and t.id in child_args for t in a.targets):
+                    new = {x.id for x in ast.walk(a.value) if isinstance(x, ast.Name)} - child_args
+                    if new:
+                        child_args |= new
+                        grew = True
         work = sorted(w for w in written if w in child_args)
+        ck.shape(bool(work), "%s: a working copy that is written inside the retry loop and then handed to the child object (written: %s)" % (m, sorted(written)), f.loc(lp))
         ck.ob("IDIOM-retry", construct, bool(work), expected="a working copy that is written and then handed to the child object", found=sorted(written), slot="working-copy",
               where=f.loc(lp))
+        from lcsa.bind import inline_locals
         for w in work:
             inits = [s for s in lp.body if isinstance(s, ast.Assign) and any(isinstance(t, ast.Name) and t.id == w for t in s.targets)]
-            fresh_forms = ("list(self.seq)", "\"\"", "''", "[]", "list(old_seq_list)", "old_seq_list[:]", "list(self.seq)[:]", "old_seq_list.copy()")
-            ck.shape(not inits or unparse(inits[0].value).replace(" ", "") in fresh_forms, "%s: working copy initialised in an unrecognised form" % m, f.loc(lp))
+            fresh_forms = ("list(self.seq)", "\"\"", "''", "[]", "list(old_seq_list)", "old_seq_list[:]", "list(self.seq)[:]", "old_seq_list.copy()", "list(list(self.seq))", "list(self.seq).copy()")
+            ck.shape(not inits or unparse(inits[0].value).replace(" ", "") in fresh_forms or unparse(inline_locals(f, inits[0].value)).replace(" ", "") in fresh_forms,
+                     "%s: working copy initialised in an unrecognised form" % m, f.loc(lp))
             ok = bool(inits) and inits[0].lineno < written[w]
             ck.ob("IDIOM-retry", construct, ok, expected="'%s' is re-created from the receiver's sequence at the start of every attempt" % w,
                   found=[unparse(i) for i in inits] or "initialised outside the retry loop", slot="fresh-per-attempt:" + w, where=f.loc(lp),
